@@ -14,8 +14,9 @@ import Marwood.Vm.RunLoop
            lifting to `run_one` is not done and is what this hypothesis stands for);
 * `noIofArg`  no lambda has an `IofArgument` entry in its environment map (DESIGN §1: reachable only from the
            argument-less top-level lambda, i.e. dead; CLOSURE would read the frame through `load_arg`);
-* `bpLive`, `frameLive`  the stack slots an instruction reads through `bp` are at or below `sp` (frame
-           well-formedness, C04/C05's `WF-stack`; slots above `sp` hold stale values that are not roots).
+* `bpLive`, `frameLive`  the stack slots the *current* instruction reads through `bp` — a `BasePointerOffset`
+           first operand, the frame header of RET / TCALL — are at or below `sp` (frame well-formedness,
+           C04/C05's `WF-stack`; slots above `sp` hold stale values that are not roots).
 
 `Safe m s`: every state the machine can reach from `s` — by instructions and by collections at any
 boundary — is `Good`. It is the explicit hypothesis of T03.5 / T13.3 below.
@@ -31,7 +32,7 @@ structure Good (s : St CHeap) : Prop where
   wf : WFHeap true (toHeap s.heap)
   roots : RootsOk (toHeap s.heap) ((rootsOf s).refs true)
   noIofArg : NoIofArg s.heap
-  bpLive : BpLive s
+  bpLive : BpLive { s with ipO := s.ipO + 1 }
   frameLive : ∀ l, lambdaAt s.heap s.ipL = some l →
     (l.bc[s.ipO]? = some (.opcode .ret) ∨ l.bc[s.ipO]? = some (.opcode .tcallAcc)) → FrameLive s
 
